@@ -41,6 +41,12 @@ MANUAL = {
     "59f657c": [("stix2/v21/base.py", "        if kwargs.get('id') in (None, []):", "        if 'id' not in kwargs:")],
     "e01f0d6": [("stix2/patterns.py", "re.match(r\"^h'(([a-fA-F0-9]{2})*)'\\Z\", value)", "re.match(r\"^h'(([a-fA-F0-9]{2})+)'\\Z\", value)")],
     "83c0cb5": [("stix2/equivalence/pattern/transform/comparison.py", '        if ast.operator in ("MATCHES", "LIKE", "<", ">", "<=", ">="):', '        if ast.operator in ("<", ">", "<=", ">="):')],
+    "7d5eca6": [("stix2/patterns.py", "        if not _BARE_PATH_STEP_RE.match(x) or x in _PATTERN_KEYWORDS:", "        if not _BARE_PATH_STEP_RE.match(x):")],
+    "39e48ba": [("stix2/patterns.py", "                return \"'\" + escape_quotes_and_backslashes(x) + \"'\"", "                return \"'\" + x + \"'\"")],
+    "57ad8c0": [("stix2/patterns.py", "            if not component_name.needs_to_be_quoted:\n", "            if False:\n")],
+    "d7c5ace": [("stix2/datastore/filesystem.py", "bundlify=bundlify, encoding=encoding),", "bundlify=bundlify),")],
+    "03d1fa7": [("stix2/versioning.py", "        changed_properties.update(kwargs[\"custom_properties\"])\n", "        pass\n")],
+    "f507229": [("stix2/datastore/filesystem.py", "        if \"type\" not in stix_obj or \"id\" not in stix_obj:\n", "        if False:\n")],
     "ff7a5eb": [("stix2/datastore/filters.py", "        elif isinstance(stix_obj_property, datetime) and \\\n                isinstance(self.value, (list, tuple, set, frozenset)):\n", "        elif False:\n")],
     "27b0e09": [("stix2/markings/utils.py", "    if isinstance(value, collections.abc.Mapping):\n\n        for item in iterpath(value, path):",
                  "    if isinstance(value, dict):\n\n        for item in iterpath(value, path):")],
